@@ -20,6 +20,7 @@
      arg_of f id            the cell (id, label) of slot id of f's argument set (None: removed / absent)
      label_of f a           a.label() for the argument with id a
      labels_of f ids        the labels of a list of ids, in order
+     get_argument_ref f l   ArgumentSet::get_argument(l): the cell (id, label) found for a label
      comp_store f ids       extract_connected_component(ids), literally: the arg_mapping table with
                             its bounds checks, new_with_labels, new_attack_by_ids per attack of f
                             whose attacker is mapped, unwrap of the attacked side and of the result
@@ -53,7 +54,11 @@
      C04_label_route_panic    ... and that panic happens exactly when some attack leaves the list
                               (attacker inside, attacked argument outside) or f has no slot;
      C04_label_route_local    (b) to_local_lab = cc_local on EVERY id (None exactly outside the
-                              component, removed and never-used ids included); lists: locals;
+                              component, removed and never-used ids included); lists: locals
+                              (unwrap) and filter_map (the `.ok()` variant of the stable solver);
+     C04_label_route_entry    the entry of a query, get_argument(label of the caller).unwrap():
+                              the cell (id, label) of f carrying that label, a panic exactly when
+                              no live argument carries it;
      C04_label_route_global   (c) to_global_lab i = Some (cc_global c i, its label in f), a cell of
                               f's argument set, for i < k, and a panic for i >= k; lists: lift_lab =
                               the cells of [lift c la], no repetition of ids nor of labels when la
@@ -116,8 +121,19 @@ Theorem C04_label_route_local : forall L (leqb : L -> L -> bool),
   comp_store L leqb f (c_ids c) = Some cf ->
   (forall a, to_local_lab L leqb f cf a = cc_local c a) /\
   (forall a, to_local_lab L leqb f cf a = None <-> ~ In a (c_ids c)) /\
-  (forall al, locals_lab L leqb f cf al = locals c al).
+  (forall al, locals_lab L leqb f cf al = locals c al) /\
+  (forall al, Encoders.filter_map (to_local_lab L leqb f cf) al = Encoders.filter_map (cc_local c) al).
 Proof. exact LabelRoute.label_route_local. Qed.
+
+Theorem C04_label_route_entry : forall L (leqb : L -> L -> bool),
+  (forall x y, leqb x y = true <-> x = y) ->
+  forall f : fw L, GroundedProofs.reachable L leqb f -> forall l,
+  (forall a, In (a, l) (iter_args L f) -> get_argument_ref L leqb f l = Some (a, l)) /\
+  match get_argument_ref L leqb f l with
+  | Some p => snd p = l /\ In p (iter_args L f)
+  | None => forall a, ~ In (a, l) (iter_args L f)
+  end.
+Proof. exact LabelRoute.label_route_entry. Qed.
 
 Theorem C04_label_route_global : forall L (leqb : L -> L -> bool),
   (forall x y, leqb x y = true <-> x = y) ->
@@ -228,6 +244,7 @@ Print Assumptions C04_labels_distinct.
 Print Assumptions C04_label_route_component.
 Print Assumptions C04_label_route_panic.
 Print Assumptions C04_label_route_local.
+Print Assumptions C04_label_route_entry.
 Print Assumptions C04_label_route_global.
 Print Assumptions C04_label_route_answer.
 Print Assumptions C04_label_route_model_components.
